@@ -623,6 +623,42 @@ def sm_accum(ctx):
                            'with their sum; integer and float spellings of one model differ)'
                            % (norm_text(st)[:70], norm_text(st.value.args[0])[:30]
                               if st.value.args else '?'))
+    # an estimate that update_estimates changes IN PLACE (element stores) must be reset to a
+    # FRESH array: a reset that rebinds it to another attribute's array (`self.bias =
+    # self._nominal_bias`) hands the accumulating code that very object, and the next reset
+    # "restores" the accumulated values (round-2 seed C12-reset-aliases-nominal)
+    inplace = set()
+    for w in writes:
+        tgt = w.targets[0] if isinstance(w, ast.Assign) else w.target
+        if isinstance(tgt, ast.Subscript) or isinstance(w, ast.AugAssign):
+            base = tgt
+            while isinstance(base, ast.Subscript):
+                base = base.value
+            inplace.add(norm_text(base).replace('self.', ''))
+    for st in rs.node.body:
+        if isinstance(st, ast.Assign):
+            a = norm_text(st.targets[0]).replace('self.', '')
+            if a not in inplace:
+                continue
+            val = st.value
+            if isinstance(val, (ast.Attribute, ast.Name)):
+                ctx.ob('SM-ATTRS', False, None, 'reset value of %s is a fresh array' % a, f=rs,
+                       node=st, key='fresh-' + a,
+                       why='reset_estimates rebinds %s to the array object `%s`, which '
+                           'update_estimates then changes element by element: the "nominal" value '
+                           'accumulates the estimates and a later reset no longer restores the '
+                           'neutral element' % (a, norm_text(val)))
+            else:
+                q_ = em.module.resolve(val.func) if isinstance(val, ast.Call) else None
+                fresh = isinstance(val, ast.Call) and (
+                    q_ in ('numpy.identity', 'numpy.eye', 'numpy.zeros', 'numpy.ones', 'numpy.empty',
+                           'numpy.full', 'numpy.zeros_like', 'numpy.ones_like', 'numpy.full_like',
+                           'numpy.empty_like', 'numpy.array', 'numpy.copy', 'numpy.diag') or
+                    (isinstance(val.func, ast.Attribute) and val.func.attr == 'copy'))
+                ctx.need(fresh, 'reset_estimates: value `%s` of %s not recognised as a fresh array'
+                         % (norm_text(val)[:50], a))
+                ctx.ob('SM-ATTRS', True, None, 'reset value of %s is a fresh array' % a, f=rs,
+                       node=st, key='fresh-' + a)
     for st in rs.node.body:
         if isinstance(st, ast.Assign):
             a = norm_text(st.targets[0]).replace('self.', '')
